@@ -255,6 +255,21 @@ func (r *Run) Do(a Action) (ok bool) {
 			r.Lines = append(r.Lines, "MQEV\t"+a.Abs)
 		}
 		ok = r.W.Event(a.Subj, a.Ev, []byte(a.Text))
+	case "connevent":
+		// event on conn.<cid>.<ev> for the labelled connection
+		cid := r.W.CIDs()[a.C]
+		if cid == "" {
+			return false
+		}
+		r.flush()
+		if r.W.MQ.HasSub("conn." + cid) {
+			r.Lines = append(r.Lines, "CONNEV\t"+a.C+"\t"+a.Abs)
+		}
+		ok = r.W.Event("conn."+cid, a.Ev, []byte(a.Text))
+	case "sysevent":
+		r.flush()
+		r.Lines = append(r.Lines, "SYSEV\t"+a.Abs)
+		ok = r.W.Event("system", a.Ev, []byte(strings.ReplaceAll(a.Text, "$CID:"+a.C, r.W.CIDs()[a.C])))
 	case "evict":
 		ok = r.W.Evict(a.Subj)
 	case "disconnect":
